@@ -32,12 +32,24 @@ CHECKS = {
             "Held on the calls observed; precondition failures are counted as skipped.",
             "Trusted: mf/reader.py (scanner), mf/printcheck.py (walker), mf/vocab.py (required lexical class).",
             "DESIGN.md 2 C03"),
+    "C04": ("boundary-history relations: byte equality of two successive formatting passes, exact equality of their loads, and "
+            "same-input-same-text across reused/fresh printers and (thorough) across PYTHONHASHSEED subprocesses",
+            "Corpus files and generated documents x formatter option sets (quick: pairwise-covering subset; thorough: all 864 on a "
+            "slice). Held on the (document, option set) pairs observed.",
+            "Trusted: nothing beyond string / dictionary equality.",
+            "DESIGN.md 2 C04"),
     "C05": ("metamorphic relation over recorded parse events: all surface renderings of one intended structure, and a corpus "
             "file and its whitespace/comment perturbations, must give identical dictionaries",
             "8 random surfaces per generated document (keyword case, separators incl. FF/CRLF/comments, quote style, bare words, "
             "layouts), vocabulary sweep in lower/random case, every corpus inter-token gap rewritten 4 ways. Held on what was observed.",
             "Trusted: mf/render.py varies only what the property lists; corpus gaps located with mappyfile's own lexer (inputs only).",
             "DESIGN.md 2 C05"),
+    "C06": ("relation over recorded (pprint, parse) events: load of every option-formatted text vs load of the default formatting; "
+            "separate_complex_types judged against an exactly computed reordering (block-valued keys decided from values)",
+            "Corpus, generated and vocabulary documents x the option cross product (quick: pairwise-covering ~48 sets; thorough: all "
+            "864 on every 12th document). Held on the pairs observed.",
+            "Trusted: the definition of block-valued key in mf/workloads/C06.py (values printed with an END).",
+            "DESIGN.md 2 C06"),
     "C10": ("boundary relation: intended expression tree vs the string stored by the real parser, read back by an "
             "independent tokenizer + precedence parser; fixed-point and printed-unquoted relations on the same events",
             "All operator structures up to 3 (quick) / 4 (thorough) operators and random trees up to 12 operators, every "
